@@ -305,6 +305,37 @@ impl<'a> Recorder<'a> {
     }
 }
 
+/// re-execute recorded events (used by `bin/check --replay`): the call of every event in --in is made
+/// again and written out as a fresh event with fresh result, tbl and facts
+pub fn reexec(args: &[String]) {
+    silence_panics();
+    let db = arg_value(args, "--oracle").unwrap_or_else(|| tool_error("--oracle"));
+    let out = arg_value(args, "--out").unwrap_or_else(|| tool_error("--out"));
+    let input = arg_value(args, "--in").unwrap_or_else(|| tool_error("--in"));
+    let o = Oracle::load(&db);
+    let f = std::io::BufWriter::new(std::fs::File::create(&out).unwrap());
+    let mut rec = Recorder { o: &o, out: Box::new(f), seq: 0, n: 0, panics: 0, nontrivial: 0, thread: 0 };
+    for line in lines_of(&input) {
+        let e: Value = serde_json::from_str(&line).unwrap_or_else(|_| tool_error("bad event"));
+        let call_args: Vec<String> = e["args"].as_array().unwrap().iter().map(|a| cps_to_string(a).unwrap()).collect();
+        match e["ev"].as_str().unwrap_or("") {
+            "call" => {
+                let profile = e["profile"].as_str().unwrap();
+                let op = e["op"].as_str().unwrap();
+                let form = e["form"].as_str().unwrap_or("inst");
+                let kn = e["arg"].as_str().unwrap_or("str");
+                let (res, _) = call_profile_full(profile, form, op, arg_kind(kn), &call_args);
+                rec.emit(json!({"ev": "call", "profile": profile, "op": op, "form": form, "arg": kn, "res": res, "c08": "", "borrowed": "-"}), &call_args);
+            }
+            "allows" => rec.allows(e["cls"].as_str().unwrap(), &call_args[0]),
+            "ctx" => rec.ctx(e["rule"].as_str().unwrap(), &call_args[0], e["off"].as_u64().unwrap() as usize),
+            _ => tool_error("unknown event kind"),
+        }
+    }
+    rec.out.flush().unwrap();
+    println!("{}", json!({"events": rec.n}));
+}
+
 pub fn main(args: &[String]) {
     silence_panics();
     let db = arg_value(args, "--oracle").unwrap_or_else(|| tool_error("--oracle"));
